@@ -187,6 +187,26 @@ func c13Variants(rng *gen.Rng, i int) ([]c13Variant, [][]byte) {
 	}
 	inAlt := add("in-place-in-alternation", -1, nil, cmdFind(wrapPS(gen.Or{Alts: []gen.Node{gen.Lit{S: "x"}, grp}})...))
 	add("global-pattern-in-alternation", inAlt, []gen.Global{g}, cmdFind(wrapPS(gen.Or{Alts: []gen.Node{gen.Lit{S: "x"}, gen.GlobalRef{Name: "gx"}}})...))
+	// TWO stored patterns as the bare operands of one alternation (each inlined there for the first time), a third
+	// alternative, the second one behind a literal, and a stored pattern made of the two
+	if subDup {
+		B2 := []gen.Node{atomPG.Node(0), gen.Or{Alts: []gen.Node{gen.Lit{S: "b"}, gen.Lit{S: "x"}}}}
+		if rng.Bool() {
+			B2 = []gen.Node{gen.Lit{S: "c"}}
+		}
+		grp2 := gen.Seq{Items: B2}
+		gy := gen.Global{Name: "gy", Body: B2}
+		gxr, gyr := gen.GlobalRef{Name: "gx"}, gen.GlobalRef{Name: "gy"}
+		dash := gen.Lit{S: "-"}
+		w := add("in-place-two-bodies-as-alternatives", -1, nil, cmdFind(wrapPS(gen.Or{Alts: []gen.Node{grp, grp2}})...))
+		add("two-stored-patterns-as-bare-alternatives", w, []gen.Global{g, gy}, cmdFind(wrapPS(gen.Or{Alts: []gen.Node{gxr, gyr}})...))
+		add("two-stored-patterns-as-bare-alternatives-defined-in-the-other-order", w, []gen.Global{gy, g}, cmdFind(wrapPS(gen.Or{Alts: []gen.Node{gxr, gyr}})...))
+		add("stored-pattern-made-of-two-stored-patterns-as-alternatives", w, []gen.Global{g, gy, {Name: "gz", Body: []gen.Node{gen.Or{Alts: []gen.Node{gxr, gyr}}}}}, cmdFind(wrapPS(gen.GlobalRef{Name: "gz"})...))
+		w3 := add("in-place-three-alternatives-second-behind-a-literal", -1, nil, cmdFind(wrapPS(gen.Or{Alts: []gen.Node{grp, gen.Seq{Items: []gen.Node{dash, grp2}}, gen.Lit{S: "x"}}})...))
+		add("stored-patterns-three-alternatives-second-behind-a-literal", w3, []gen.Global{g, gy}, cmdFind(wrapPS(gen.Or{Alts: []gen.Node{gxr, gen.Seq{Items: []gen.Node{dash, gyr}}, gen.Lit{S: "x"}}})...))
+		w4 := add("in-place-second-body-first", -1, nil, cmdFind(wrapPS(gen.Or{Alts: []gen.Node{grp2, grp}}, grp2)...))
+		add("stored-patterns-second-first-then-used-again", w4, []gen.Global{g, gy}, cmdFind(wrapPS(gen.Or{Alts: []gen.Node{gyr, gxr}}, gyr)...))
+	}
 	c1 := cmdFind(wrapPS(gen.GlobalRef{Name: "gx"})...)
 	c2 := cmdFind(gen.GlobalRef{Name: "gx"})
 	// the name defined AGAIN between commands: each command runs with the definition in force where it stands
@@ -334,7 +354,7 @@ func C13(r *drv.Run) {
 	if !quick(r) {
 		nbody, nhist = 20000, 2500
 	}
-	r.Rule = "(1) capture-free bodies B (with or, in, not in, loops, nested and recursive subroutines) in contexts prefix/suffix, inside a loop, inside an alternation: B in place == {B}=s (+0..2 calls) == set g to pattern B referenced 1..3 times, also referenced before AND inside a counted loop (exactly 2 / at least 2 / between 3 and 4), first mentioned inside a zero-count loop and then used, a stored pattern built on another one whose name is defined again before the command, an inline subroutine of the command named like one inside the stored pattern, every inline-subroutine variant again next to an unrelated stored pattern of the same name, an inline subroutine declared inside a loop and called after it, a stored pattern with a predicate used inside another stored pattern, stored patterns whose names differ only in letter case, a name defined again in terms of its own previous definition (== the two-name form == written out), a stored pattern whose body declares an inline subroutine of the stored pattern's own name, all also judged by the reference matcher; a self-referencing subroutine driven 700 (thorough: 4 100) levels deep by an anchored input, inline and as a stored pattern, and chains of 701 and 10 051 (thorough: also 4 101 and 16 501) inline subroutines each standing for the one before it; (2) a three-command source sharing one definition == concatenation of its commands compiled alone; a source that defines the name AGAIN with another body between its commands (also with a predicate on only the first or only the second definition) == concatenation of each command compiled alone with the definition in force where it stands; (3) recorded sequential histories of Compile/Run calls in random order over a pool of sources (including sources whose compilation fails in the parser, the regex sub-parser, the generator and the type checker) and texts, checked offline against the pure-function model: each call's result digest equals the digest the same call produced alone in a fresh worker process; (4) canonical bytecode digest (loop ids normalised) unchanged by runs and equal across recompilations. Non-trivial = variant pair with >= 1 match compared / history call whose isolated result has >= 1 match; distinct by (variant source, text) and (history, call index)."
+	r.Rule = "(1) capture-free bodies B (with or, in, not in, loops, nested and recursive subroutines) in contexts prefix/suffix, inside a loop, inside an alternation, next to a SECOND stored pattern as bare operands of one alternation (also three alternatives, the second behind a literal, and a stored pattern made of the two): B in place == {B}=s (+0..2 calls) == set g to pattern B referenced 1..3 times, also referenced before AND inside a counted loop (exactly 2 / at least 2 / between 3 and 4), first mentioned inside a zero-count loop and then used, a stored pattern built on another one whose name is defined again before the command, an inline subroutine of the command named like one inside the stored pattern, every inline-subroutine variant again next to an unrelated stored pattern of the same name, an inline subroutine declared inside a loop and called after it, a stored pattern with a predicate used inside another stored pattern, stored patterns whose names differ only in letter case, a name defined again in terms of its own previous definition (== the two-name form == written out), a stored pattern whose body declares an inline subroutine of the stored pattern's own name, all also judged by the reference matcher; a self-referencing subroutine driven 700 (thorough: 4 100) levels deep by an anchored input, inline and as a stored pattern, and chains of 701 and 10 051 (thorough: also 4 101 and 16 501) inline subroutines each standing for the one before it; (2) a three-command source sharing one definition == concatenation of its commands compiled alone; a source that defines the name AGAIN with another body between its commands (also with a predicate on only the first or only the second definition) == concatenation of each command compiled alone with the definition in force where it stands; (3) recorded sequential histories of Compile/Run calls in random order over a pool of sources (including sources whose compilation fails in the parser, the regex sub-parser, the generator and the type checker) and texts, checked offline against the pure-function model: each call's result digest equals the digest the same call produced alone in a fresh worker process; (4) canonical bytecode digest (loop ids normalised) unchanged by runs and equal across recompilations. Non-trivial = variant pair with >= 1 match compared / history call whose isolated result has >= 1 match; distinct by (variant source, text) and (history, call index)."
 	r.Assumptions = []string{
 		"bodies are capture-free, as the property says",
 		"a body that itself declares subroutines is not duplicated textually (two declarations of one name are rejected by design)",
